@@ -156,7 +156,7 @@ def _flav_hint(res, fa, fb, osym, op='mul'):
         return _repr_fork(res, fa, fb)
     if isinstance(res, SymFrac) and not osym and 'dec' in (fa, fb) and not getattr(E, '_flav_hinted', False):
         E._flav_hinted = True
-        E.hint(z3.And(z3.IsInt(res.z * 3000), z3.Not(z3.IsInt(res.z * 1000))))
+        E.hint(z3.And(z3.IsInt(res.z * 3000), z3.Not(z3.IsInt(res.z * 1000))), cex_only=True)
     return res
 
 
